@@ -869,7 +869,7 @@ func replayProgModule(raw json.RawMessage) vdrv.Verdict {
 	return judgeProgModule(c)
 }
 
-var subs = map[string]vdrv.ReplayFunc{"litnum": replayLit, "litstr": replayLit, "litmisc": replayLit, "ctx": replayCtx, "prog": replayProg, "progmod": replayProgModule, "jsxrt": replayJSX, "jsxlit": replayJSX}
+var subs = map[string]vdrv.ReplayFunc{"litnum": replayLit, "litstr": replayLit, "litmisc": replayLit, "litops": replayLit, "ctx": replayCtx, "prog": replayProg, "progmod": replayProgModule, "jsxrt": replayJSX, "jsxlit": replayJSX}
 
 func setup(t *testing.T) {
 	H = vdrv.New("C01")
@@ -889,6 +889,7 @@ func TestCheck(t *testing.T) {
 	H.Sub(t, "litnum", runLitNum)
 	H.Sub(t, "litstr", runLitStr)
 	H.Sub(t, "litmisc", runLitMisc)
+	H.Sub(t, "litops", runLitOps)
 	H.Sub(t, "ctx", runCtxGrid)
 	H.Sub(t, "prog", runProg)
 	H.Sub(t, "progmod", runProgModule)
